@@ -48,6 +48,15 @@ def Label.internal : Label α κ → Bool
   | .user _ => false
   | _ => true
 
+/-- the labels of the canonical schedule: no keystroke, and event-loop iterations whose reads are all accurate -/
+def Label.canon : Label α κ → Bool
+  | .user _ => false
+  | .loop rd => rd == {}
+  | _ => true
+
+theorem Label.internal_of_canon (l : Label α κ) (h : l.canon = true) : l.internal = true := by
+  cases l <;> simp_all [Label.canon, Label.internal]
+
 /-! exact results of the heart-beat handler with accurate reads -/
 
 theorem hbSelect_off (s : St α κ) (rd : Reads) (h1 : s.select1 = false) (h2 : s.exit0 = false) :
@@ -175,7 +184,7 @@ theorem step_loop_hb (m : κ → α → Bool) (s : St α κ) (rest : List (Ev α
 
 /-- one step of the canonical schedule -/
 theorem progress (m : κ → α → Bool) (s : St α κ) (h : Ready m s) (hnq : ¬ Quiet s) :
-    ∃ (l : Label α κ) (s' : St α κ), l.internal = true ∧ step m s l = some s' ∧ Ready m s' ∧ mu s' < mu s := by
+    ∃ (l : Label α κ) (s' : St α κ), l.canon = true ∧ step m s l = some s' ∧ Ready m s' ∧ mu s' < mu s := by
   have hfin' : s.finished.isSome = false := by simp [h.fin]
   by_cases hlive : s.live = true
   · -- the reader moves
@@ -322,7 +331,7 @@ theorem runL_cons_some (m : κ → α → Bool) (s s' : St α κ) (l : Label α 
 
 /-- from every `Ready` state a finite sequence of internal labels reaches quiescence -/
 theorem reach_quiet (m : κ → α → Bool) : ∀ (n : Nat) (s : St α κ), mu s ≤ n → Ready m s →
-    ∃ ls : List (Label α κ), (∀ l ∈ ls, l.internal = true) ∧ Quiet (runL m s ls) ∧ Ready m (runL m s ls) := by
+    ∃ ls : List (Label α κ), (∀ l ∈ ls, l.canon = true) ∧ Quiet (runL m s ls) ∧ Ready m (runL m s ls) := by
   intro n
   induction n with
   | zero =>
